@@ -332,6 +332,18 @@ func (r *RuleResult) Anchor(name string, found bool) bool {
 	return found
 }
 
+// renamed re-labels a rule result so that one analysis can serve as a rule of several properties.
+func renamed(r *RuleResult, name, doc string) *RuleResult {
+	old := r.Name
+	r.Name = name
+	r.Doc = doc
+	for i := range r.Violations {
+		r.Violations[i].Rule = name
+	}
+	_ = old
+	return r
+}
+
 // Exception tables: map key -> reason.
 type ExcTable map[string]string
 
